@@ -4,7 +4,8 @@
    The MODEL (Count/Constructors.v) transcribes DisjointUnion / Complement /
    CartesianProduct / Quotient .get_terms, the three param_map variants, the
    position maps built from the extra_parameters dictionaries, Rule._ensure_level
-   and the constructors rebuilt by EquivalenceRule / EquivalencePathRule, over the
+   and the constructors rebuilt by EquivalenceRule / EquivalencePathRule (incl. the one-factor
+   product branches of fix 25e10f1: forms 7/8, typed path steps, Quotient._c without sibling), over the
    GENERATED utils.compositions and Quotient.__init__ arithmetic (Gen/*.v).
 
    Vocabulary (Count/Terms.v): a term table is a list of (parameter tuple, value)
@@ -1549,3 +1550,305 @@ Print Assumptions C09_union_param_map_is_source.
 Print Assumptions C09_quotient_param_map_is_source.
 Print Assumptions C09_path_dictionary_is_source.
 Print Assumptions C09_path_initial_is_source.
+
+(* ================================================================================================
+   Fix 25e10f1 — a product rule with a SINGLE factor as an equivalence step and in reverse
+   (Count/ConstructorsOneFactor.v), and the two OPEN findings on Complement characterised
+   (Count/ConstructorsFindings.v).
+   ================================================================================================ *)
+From CSS Require Import Count.ConstructorsOneFactor Count.ConstructorsFindings.
+
+(* "a product with a single factor counts like a union with a single child": the full convolution
+   over compositions into ONE part is the re-keyed table of the factor *)
+Theorem C09_one_factor_product_is_union : forall f (tab : Z -> terms) Tp n, 0 <= n ->
+  (product_genuine [f] [tab] Tp n <-> union_genuine [f] [tab n] Tp).
+Proof. exact one_factor_genuine_iff. Qed.
+
+(* form 7 (EquivalenceRule of a one-factor product; EquivalenceRule.constructor builds the one-child
+   DisjointUnion over extra_parameters[0]): fed with the factor's true table it raises nothing and
+   returns the parent's true table *)
+Theorem C09_equivalence_one_factor_product : forall pnames k ktab Tp own n,
+  0 <= n -> k_empty k = false -> kid_wf pnames k -> kid_keys k (tab_at ktab n) ->
+  product_genuine [kid_sem pnames k] [tab_at ktab] Tp n ->
+  exists r, equiv_product_step pnames [k] [ktab] own n = Ok r /\ teq r Tp.
+Proof. exact equiv_product_step_correct. Qed.
+
+(* ... it IS the form-4 step of the same description; with two or more factors the library builds
+   no equivalence form (NotImplementedError) *)
+Theorem C09_equivalence_one_factor_product_is_union_form : forall pnames k ktabs own n,
+  equiv_product_step pnames [k] ktabs own n = equiv_union_step pnames [k] ktabs own n.
+Proof. exact equiv_product_step_is_equiv_union_step. Qed.
+
+Theorem C09_equivalence_product_two_factors_not_implemented : forall pnames k1 k2 kids ktabs own n ci,
+  first_nonempty (k1 :: k2 :: kids) = Some ci ->
+  equiv_product_step pnames (k1 :: k2 :: kids) ktabs own n = Err E_NOTIMPL.
+Proof. exact equiv_product_step_not_implemented. Qed.
+
+(* form 3 with ONE kid (Quotient without sibling: _c is the constant 1, _a subtracts nothing, the
+   rule's own earlier terms are not read): Rule._ensure_level returns, for every level 0..N and
+   without an exception, the true TABLE of the factor — the parent's table read through the
+   dictionary.  Hypotheses: at least one parent statistic (the sympy branch), a well-formed
+   dictionary whose values are the child's statistics and cover them (several parent statistics
+   may be merged onto one), key lengths, counts and statistic values non-negative, no object below
+   the minimum size, the product rule genuine at the sizes 0..N (parent shift 0).                *)
+Theorem C09_quotient_no_sibling : forall pnames k ptabs ktab N,
+  (1 <= length pnames)%nat -> kid_wf pnames k ->
+  (forall a b, In (a, b) (k_dict k) -> In b (k_names k)) ->
+  (forall cv, In cv (k_names k) -> In cv (map snd (k_dict k))) ->
+  (forall m, kid_keys k (tab_at ktab m)) -> (forall m, nonneg (tab_at ktab m)) ->
+  (forall m key v, In (key, v) (tab_at ktab m) -> Forall (fun y => 0 <= y) key) ->
+  (forall m, m < k_min k -> allzero (tab_at ktab m)) ->
+  (forall m, 0 <= m <= N -> product_genuine [kid_sem pnames k] [tab_at ktab] (tab_at ptabs m) m) ->
+  0 <= N ->
+  exists tl : list terms, levels (quotient_step pnames [k] 0 ptabs [ktab]) N = (tl, None) /\
+    length tl = Z.to_nat (N + 1) /\
+    forall m, (m < length tl)%nat -> teq (nth m tl []) (tab_at ktab (Z.of_nat m)).
+Proof. exact quotient_no_sibling_correct. Qed.
+
+(* form 6 with typed steps (kind 0/1 union forms, 2 a RAW one-factor product rule, 3 its RAW
+   ReverseRule): the steps lower to the union description over the same kid (a product step with
+   two or more kids is the AssertionError of EquivalencePathRule.__init__), and the path returns
+   the true table of its first class whenever the chain is genuine *)
+Theorem C09_path_step_one_factor_product : forall ks0 ksteps s0 steps chain (T0 : terms) tabs own n,
+  mapM kstep_lower (ks0 :: ksteps) = Ok (s0 :: steps) ->
+  let first := step_source s0 in
+  let lastn := step_target (last (s0 :: steps) s0) in
+  NoDup first -> klen (length first) T0 ->
+  chain_ok first T0 chain ->
+  map step_dict (s0 :: steps) = map Some (map (fun s : list Z * dict * terms => snd (fst s)) chain) ->
+  fst (chain_end first T0 chain) = lastn ->
+  snd (chain_end first T0 chain) = tab_at tabs n ->
+  wf_dict first lastn (fold_left dict_compose (map (fun s : list Z * dict * terms => snd (fst s)) chain) (id_dict first)) ->
+  klen (length lastn) (tab_at tabs n) ->
+  exists r, path_step_k (ks0 :: ksteps) tabs own n = Ok r /\ teq r T0.
+Proof. exact path_step_k_correct. Qed.
+
+Theorem C09_path_product_step_lowering : forall kind pn k idx, 2 <= kind ->
+  kstep_lower (kind, pn, [k], idx) = Ok (negb (kind =? 2), pn, [k], 0%nat).
+Proof. exact kstep_lower_product. Qed.
+
+(* a genuine one-factor product IS a genuine link of the chain (what chain_ok asks of that step),
+   and it contributes the dictionary of its only factor *)
+Theorem C09_path_one_factor_product_link : forall pnames k (tab : Z -> terms) Tp n,
+  0 <= n -> product_genuine [kid_sem pnames k] [tab] Tp n ->
+  teq Tp (rekey (dict_sem pnames (k_names k) (k_dict k)) (tab n)).
+Proof. exact one_factor_product_link. Qed.
+
+(* end to end for the path consisting of ONE raw one-factor product rule *)
+Theorem C09_path_single_product_step : forall pnames k ktab Tp own n,
+  0 <= n -> k_empty k = false -> kid_wf pnames k -> kid_keys k (tab_at ktab n) ->
+  klen (length pnames) Tp ->
+  product_genuine [kid_sem pnames k] [tab_at ktab] Tp n ->
+  exists r, path_step_k [(2, pnames, [k], 0%nat)] ktab own n = Ok r /\ teq r Tp.
+Proof. exact path_single_product_step_correct. Qed.
+
+(* ---------------------------------------------------------------- the open findings, characterised *)
+(* OPEN finding complement-untracked-child-statistic.  Without the coverage half of flip_ok the step
+   still raises nothing, and returns the child's true table pushed through child -> parent -> child:
+   every statistic of the child that is a value of the dictionary survives, an untracked one is 0. *)
+Theorem C09_complement_untracked_characterised : forall pnames kids idx ptabs ktabs own n,
+  let ki := nth idx kids default_kid in
+  (idx < length kids)%nat -> length ktabs = length kids ->
+  NoDup pnames -> Forall (kid_wf pnames) kids -> flip_inj pnames ki ->
+  klen (length pnames) (tab_at ptabs n) ->
+  Forall2 kid_keys kids (map (fun t => tab_at t n) ktabs) ->
+  Forall nonneg (map (fun t => tab_at t n) ktabs) ->
+  union_genuine (map (kid_sem pnames) kids) (map (fun t => tab_at t n) ktabs) (tab_at ptabs n) ->
+  exists r, complement_step pnames kids idx ptabs ktabs own n = Ok r /\
+            teq r (rekey (round_trip pnames ki) (tab_at (nth idx ktabs []) n)).
+Proof. exact complement_step_round_trip. Qed.
+
+Theorem C09_complement_round_trip_coordinate : forall pnames k key q,
+  kid_wf pnames k -> NoDup (map snd (k_dict k)) ->
+  length key = length (k_names k) -> (q < length (k_names k))%nat ->
+  nth q (round_trip pnames k key) 0 =
+  if existsb (Z.eqb (nth q (k_names k) 0)) (map snd (k_dict k)) then nth q key 0 else 0.
+Proof. exact round_trip_coordinate. Qed.
+
+(* hence C09_complement_step without coverage is FALSE of the model (and of the code: the witness is
+   harness/corpus/C09/complement_untracked_statistic.json, count 1 at statistic 0, truth at 2) *)
+Theorem C09_complement_untracked_refuted :
+  ~ (forall pnames kids idx ptabs ktabs own n,
+       let ki := nth idx kids default_kid in
+       (idx < length kids)%nat -> length ktabs = length kids ->
+       NoDup pnames -> Forall (kid_wf pnames) kids -> flip_inj pnames ki ->
+       klen (length pnames) (tab_at ptabs n) ->
+       Forall2 kid_keys kids (map (fun t => tab_at t n) ktabs) ->
+       Forall nonneg (map (fun t => tab_at t n) ktabs) ->
+       union_genuine (map (kid_sem pnames) kids) (map (fun t => tab_at t n) ktabs) (tab_at ptabs n) ->
+       exists r, complement_step pnames kids idx ptabs ktabs own n = Ok r /\
+                 teq r (tab_at (nth idx ktabs []) n)).
+Proof. exact complement_untracked_refuted. Qed.
+
+(* OPEN finding reverse-wrt-child-with-merged-statistics-asserts.  The parent map of Complement
+   (DisjointUnion.param_map over _build_parent_param_map) reaches its assertion EXACTLY on the parent
+   tuples on which two parent statistics mapped onto one statistic of the flipped child differ. *)
+Theorem C09_complement_merged_asserts : forall pnames cnames d key,
+  NoDup cnames -> (forall a b, In (a, b) d -> In b cnames) -> length key = length pnames ->
+  (du_param_map (parent_pm pnames cnames d) (length cnames) key = Err E_ASSERT <->
+   exists pv1 x1 pv2 x2 cv, In (pv1, x1) (combine pnames key) /\ In (pv2, x2) (combine pnames key) /\
+     dict_get d pv1 = Some cv /\ dict_get d pv2 = Some cv /\ x1 <> x2).
+Proof. exact complement_merged_asserts. Qed.
+
+(* ... and DisjointUnion.param_map in general: AssertionError iff one target position is visited
+   with two different values; otherwise it returns *)
+Theorem C09_union_param_map_asserts_iff : forall pm num param,
+  (forall p v, In (p, v) (visits pm param) -> (p < num)%nat) ->
+  (du_param_map pm num param = Err E_ASSERT <->
+   exists p v1 v2, In (p, v1) (visits pm param) /\ In (p, v2) (visits pm param) /\ v1 <> v2) /\
+  (du_param_map pm num param <> Err E_ASSERT -> exists r, du_param_map pm num param = Ok r).
+Proof. exact du_param_map_asserts_iff. Qed.
+
+(* ---------------------------------------------------------------- applied examples *)
+(* one factor carrying statistic 5; the parent's statistic 0 is mapped onto it *)
+Definition of_k : kid := mkKid [5] [(0, 5)] 1 false false.
+Definition of_ktab : list terms := [[]; [([2], 1); ([0], 3)]; [([1], 2)]].
+Definition of_ptabs : list terms := [[]; [([2], 1); ([0], 3)]; [([1], 2)]].
+
+Lemma of_wf : kid_wf [0] of_k. Proof. wf_explicit. Qed.
+Lemma of_genuine : forall m, 0 <= m <= 2 ->
+  product_genuine [kid_sem [0] of_k] [tab_at of_ktab] (tab_at of_ptabs m) m.
+Proof.
+  intros m Hm. apply (proj2 (C09_one_factor_product_is_union _ _ _ _ (proj1 Hm))).
+  unfold union_genuine, union_table. simpl map2. simpl concat. rewrite app_nil_r.
+  assert (m = 0 \/ m = 1 \/ m = 2) as [->|[->| ->]] by lia; teq_compute.
+Qed.
+
+Example C09_equivalence_one_factor_product_nonvacuous :
+  exists r, equiv_product_step [0] [of_k] [of_ktab] (fun _ => []) 1 = Ok r /\ teq r (tab_at of_ptabs 1).
+Proof.
+  apply (C09_equivalence_one_factor_product [0] of_k of_ktab (tab_at of_ptabs 1) (fun _ => []) 1).
+  - lia.
+  - reflexivity.
+  - exact of_wf.
+  - klen_explicit.
+  - apply of_genuine. lia.
+Qed.
+Example C09_equivalence_one_factor_product_value :
+  equiv_product_step [0] [of_k] [of_ktab] (fun _ => []) 1 = Ok [([2], 1); ([0], 3)].
+Proof. vm_compute. reflexivity. Qed.
+Example C09_equivalence_product_two_factors_value :
+  equiv_product_step [0] [of_k; of_k] [of_ktab; of_ktab] (fun _ => []) 1 = Err E_NOTIMPL.
+Proof. apply (C09_equivalence_product_two_factors_not_implemented [0] of_k of_k [] _ _ 1 0%nat). reflexivity. Qed.
+
+Example C09_quotient_no_sibling_nonvacuous :
+  exists tl : list terms, levels (quotient_step [0] [of_k] 0 of_ptabs [of_ktab]) 2 = (tl, None) /\
+    length tl = 3%nat /\ forall m, (m < length tl)%nat -> teq (nth m tl []) (tab_at of_ktab (Z.of_nat m)).
+Proof.
+  apply (C09_quotient_no_sibling [0] of_k of_ptabs of_ktab 2).
+  - simpl. lia.
+  - exact of_wf.
+  - intros a b H. simpl in H. destruct H as [H|[]]. inversion H. simpl. tauto.
+  - intros cv H. simpl in H. destruct H as [<-|[]]. simpl. tauto.
+  - apply tab_at_forall; [intros ? ? []|]. each_kid klen_explicit.
+  - apply tab_at_forall; [intros ? ? []|]. each_kid by_entries.
+  - intros m. apply (tab_at_forall (fun t => forall key v, In (key, v) t -> Forall (fun y => 0 <= y) key));
+      [intros ? ? []|]. each_kid klen_explicit.
+  - intros m Hm. simpl in Hm. unfold tab_at. destruct (m <? 0) eqn:E; [intros ? ? []|].
+    assert (m = 0) as -> by lia. intros ? ? [].
+  - exact of_genuine.
+  - lia.
+Qed.
+(* the pre-fix model (and code) raised ZeroDivisionError here *)
+Example C09_quotient_no_sibling_value :
+  levels (quotient_step [0] [of_k] 0 of_ptabs [of_ktab]) 2 = ([[]; [([2], 1); ([0], 3)]; [([1], 2)]], None).
+Proof. vm_compute. reflexivity. Qed.
+
+Example C09_path_single_product_step_nonvacuous :
+  exists r, path_step_k [(2, [0], [of_k], 0%nat)] of_ktab (fun _ => []) 1 = Ok r /\ teq r (tab_at of_ptabs 1).
+Proof.
+  apply (C09_path_single_product_step [0] of_k of_ktab (tab_at of_ptabs 1) (fun _ => []) 1).
+  - lia.
+  - reflexivity.
+  - exact of_wf.
+  - klen_explicit.
+  - klen_explicit.
+  - apply of_genuine. lia.
+Qed.
+(* a union step, then a raw one-factor product step, then the raw REVERSE of a one-factor product *)
+Example C09_path_step_one_factor_product_value :
+  path_step_k [(0, [9], [mkKid [0] [(9, 0)] 1 false false], 0%nat); (2, [0], [of_k], 0%nat);
+               (3, [8], [mkKid [5] [(8, 5)] 1 false false], 0%nat)]
+              [[]; [([2], 1); ([0], 3)]] (fun _ => []) 1 = Ok [([2], 1); ([0], 3)].
+Proof. vm_compute. reflexivity. Qed.
+Example C09_path_product_step_two_kids_value :
+  path_step_k [(2, [0], [of_k; of_k], 0%nat)] of_ktab (fun _ => []) 1 = Err E_ASSERT.
+Proof. vm_compute. reflexivity. Qed.
+Example C09_path_product_step_lowering_nonvacuous :
+  kstep_lower (3, [8], [of_k], 0%nat) = Ok (true, [8], [of_k], 0%nat).
+Proof. apply (C09_path_product_step_lowering 3 [8] of_k 0%nat). lia. Qed.
+Example C09_path_one_factor_product_link_nonvacuous :
+  teq (tab_at of_ptabs 1) (rekey (dict_sem [0] (k_names of_k) (k_dict of_k)) (tab_at of_ktab 1)).
+Proof. apply (C09_path_one_factor_product_link [0] of_k (tab_at of_ktab) (tab_at of_ptabs 1) 1); [lia|apply of_genuine; lia]. Qed.
+Example C09_path_step_one_factor_product_nonvacuous :
+  exists r, path_step_k [(2, [0], [of_k], 0%nat)] of_ktab (fun _ => []) 1 = Ok r /\ teq r (tab_at of_ptabs 1).
+Proof.
+  pose proof of_wf as (Hpn & Hcn & Hkd & Hsub).
+  apply (C09_path_step_one_factor_product (2, [0], [of_k], 0%nat) [] (false, [0], [of_k], 0%nat) []
+           [([5], [(0, 5)], tab_at of_ktab 1)] (tab_at of_ptabs 1) of_ktab (fun _ => []) 1).
+  - reflexivity.
+  - exact Hpn.
+  - klen_explicit.
+  - constructor; [exact Hpn|exact Hsub| |constructor]. exact C09_path_one_factor_product_link_nonvacuous.
+  - reflexivity.
+  - reflexivity.
+  - reflexivity.
+  - exact of_wf.
+  - klen_explicit.
+Qed.
+
+(* the witness of the open finding, in the model: count 1 at statistic 0 (canonical form of the
+   accumulator), while the flipped child has its object at statistic 2 *)
+Example C09_complement_untracked_value :
+  complement_step [] w_kids 0 w_ptabs w_ktabs (fun _ => []) 1 = Ok [([0], -1); ([0], 2)] /\
+  tab_at (nth 0 w_ktabs []) 1 = [([2], 1)].
+Proof. split; vm_compute; reflexivity. Qed.
+Example C09_complement_untracked_characterised_nonvacuous :
+  round_trip [] (nth 0 w_kids default_kid) [2] = [0].
+Proof. vm_compute. reflexivity. Qed.
+Example C09_complement_round_trip_coordinate_nonvacuous :
+  nth 0 (round_trip [] (nth 0 w_kids default_kid) [2]) 0 = 0.
+Proof.
+  rewrite (C09_complement_round_trip_coordinate [] (nth 0 w_kids default_kid) [2] 0%nat).
+  - reflexivity.
+  - unfold kid_wf, wf_dict. simpl. repeat split; repeat constructor; simpl; try tauto.
+  - constructor.
+  - reflexivity.
+  - simpl. lia.
+Qed.
+(* binary words, k0 = #a, k1 = #b, both mapped onto statistic 7 of the flipped child: the parent
+   term (1, 0) asserts, the term (1, 1) does not *)
+Example C09_complement_merged_asserts_nonvacuous :
+  du_param_map (parent_pm [0; 1] [7] [(0, 7); (1, 7)]) 1 [1; 0] = Err E_ASSERT.
+Proof.
+  apply (proj2 (C09_complement_merged_asserts [0; 1] [7] [(0, 7); (1, 7)] [1; 0]
+                 ltac:(repeat constructor; simpl; tauto)
+                 ltac:(intros a b [H|[H|[]]]; inversion H; simpl; tauto) eq_refl)).
+  exists 0, 1, 1, 0, 7. simpl. repeat split; try tauto; lia.
+Qed.
+Example C09_complement_merged_consistent_value :
+  du_param_map (parent_pm [0; 1] [7] [(0, 7); (1, 7)]) 1 [1; 1] = Ok [1].
+Proof. vm_compute. reflexivity. Qed.
+Example C09_union_param_map_asserts_iff_nonvacuous :
+  du_param_map [[0%nat]; [0%nat]] 1 [1; 0] = Err E_ASSERT.
+Proof.
+  assert (Hr : forall p v, In (p, v) (visits [[0%nat]; [0%nat]] [1; 0]) -> (p < 1)%nat).
+  { intros p v H. simpl in H. destruct H as [H|[H|[]]]; inversion H; lia. }
+  apply (proj2 (proj1 (C09_union_param_map_asserts_iff [[0%nat]; [0%nat]] 1 [1; 0] Hr))).
+  exists 0%nat, 1, 0. simpl. repeat split; try tauto; lia.
+Qed.
+
+Print Assumptions C09_one_factor_product_is_union.
+Print Assumptions C09_equivalence_one_factor_product.
+Print Assumptions C09_equivalence_one_factor_product_is_union_form.
+Print Assumptions C09_equivalence_product_two_factors_not_implemented.
+Print Assumptions C09_quotient_no_sibling.
+Print Assumptions C09_path_step_one_factor_product.
+Print Assumptions C09_path_product_step_lowering.
+Print Assumptions C09_path_one_factor_product_link.
+Print Assumptions C09_path_single_product_step.
+Print Assumptions C09_complement_untracked_characterised.
+Print Assumptions C09_complement_round_trip_coordinate.
+Print Assumptions C09_complement_untracked_refuted.
+Print Assumptions C09_complement_merged_asserts.
+Print Assumptions C09_union_param_map_asserts_iff.
